@@ -172,6 +172,9 @@ func (c *rankCache) Add(id uint64, n uint64) {
 	// unless the count is 0, which is effectively used
 	// to clear the cache value.
 	if n < c.thresholdValue && n > 0 {
+		// below the threshold: do not rank it, but do not keep a stale, larger
+		// count for it either
+		delete(c.entries, id)
 		return
 	}
 
@@ -185,6 +188,8 @@ func (c *rankCache) BulkAdd(id uint64, n uint64) {
 	c.mu.Lock()
 	defer c.mu.Unlock()
 	if n < c.thresholdValue {
+		// below the threshold: forget the row rather than keep a stale count
+		delete(c.entries, id)
 		return
 	}
 
